@@ -221,7 +221,7 @@ func c11WrapRun(e *c11AppEnv, c c11WrapCase) (classes []string, nontrivial bool,
 	ph := aPhantom(0, c.V6)
 	var cls []string
 	defer func() {
-		if o.Hung || o.Panic != nil {
+		if o.Hung || o.Inconclusive || o.Panic != nil {
 			e.dirty = true
 		}
 	}()
@@ -243,8 +243,8 @@ func c11WrapRun(e *c11AppEnv, c c11WrapCase) (classes []string, nontrivial bool,
 			}
 		}
 	})
-	if o.Hung {
-		return []string{"hung"}, true, o
+	if o.Hung || o.Inconclusive {
+		return []string{"gave-up-waiting"}, true, o
 	}
 	for _, k := range cls {
 		if k == "Min:wrapped" || k == "Prefix:wrapped" || k == "Obfs4:wrapped" || k == "Prefix:error" || k == "Obfs4:error" {
@@ -423,12 +423,12 @@ func c11ConnRun(e *c11AppEnv, c c11ConnCase) (classes []string, nontrivial bool,
 	conn.WaitLimit = c11h.Bound
 	done := make(chan c11h.Outcome, 1)
 	go func() {
-		done <- c11h.Guard(c11h.Bound+time.Second, func() { cm.handleNewTCPConn(e.rm, conn, ph) })
+		done <- c11h.Guard(4*c11h.Bound, func() { cm.handleNewTCPConn(e.rm, conn, ph) })
 	}()
 	sleeping := func() bool {
 		return atomic.LoadInt64(&cm.ipv4.numCheckToError)+atomic.LoadInt64(&cm.ipv6.numCheckToError) > 0
 	}
-	start := time.Now()
+	watch := c11h.NewWatch(c11h.Bound)
 	tick := time.NewTicker(200 * time.Microsecond)
 	defer tick.Stop()
 	designSleep := false
@@ -443,8 +443,8 @@ wait:
 				designSleep = true
 				break wait
 			}
-			if time.Since(start) > c11h.Bound {
-				o = c11h.Outcome{Hung: true, Dur: time.Since(start)}
+			if hung, inc := watch.Verdict(); hung || inc {
+				o = c11h.Outcome{Hung: hung, Inconclusive: inc, Dur: watch.Elapsed()}
 				break wait
 			}
 		}
@@ -453,11 +453,11 @@ wait:
 	if c.V6 {
 		st = &cm.ipv6
 	}
-	if o.Hung || o.Panic != nil || designSleep || atomic.LoadInt64(&st.numFound) > 0 {
+	if o.Hung || o.Inconclusive || o.Panic != nil || designSleep || atomic.LoadInt64(&st.numFound) > 0 {
 		e.dirty = true
 	}
 	switch {
-	case o.Hung || o.Panic != nil:
+	case o.Hung || o.Inconclusive || o.Panic != nil:
 	case designSleep:
 		classes = append(classes, "transport-error-sleep")
 	case atomic.LoadInt64(&st.numFound) > 0:
